@@ -211,9 +211,11 @@ theorem inv3_step {fp : FdlParams} (hfp : FpOk fp) {g g' : G} (hI : Inv fp g) (h
               simp only [Option.map_some, Option.some.injEq] at hq
               have ho : g.out = some a' := ha'
               by_cases hij : i0 = slot
-              · exfalso
-                have h2 := hu.2
-                simp [resetTaints, ho, hc, hij] at h2
+              · -- the freshly reset peripheral is Offline, not waiting for parameters
+                exfalso
+                simp only [hij, if_true, Prod.mk.injEq] at hq
+                obtain ⟨-, rfl⟩ := hq
+                simp [Peripheral.resetAddress] at hst
               · simp only [hij, if_false, Prod.mk.injEq] at hq
                 obtain ⟨rfl, rfl⟩ := hq
                 show (g.upd slot (fun _ => {}) i0).s = 1
@@ -256,10 +258,15 @@ theorem inv3_step {fp : FdlParams} (hfp : FpOk fp) {g g' : G} (hI : Inv fp g) (h
           (by intro h; rcases h with h | h <;> cases h)⟩
       · intro j q hj hJ; rw [upd_other _ _ hj]; exact hJ
   | reply a t =>
-    obtain ⟨index, i, p, p', ev, ho, hcy, hc, hpa, hal, hspec, rfl⟩ := reply_form hI hu0 h
+    have hst : Stale g a g' → Inv3 g' := by
+      rintro ⟨_, _, _, _, _, _, _, rfl⟩
+      exact ⟨h3.slot, by intro a ha; cases ha⟩
+    rcases reply_cases hI h with hdel | hs
+    case inr => exact hst hs
+    obtain ⟨index, i, p, p', ev, ho, hcy, hc, hpa, hal, hspec, rfl⟩ := hdel
     have hi := (curSlot_spec hc).2.2.1
     have hcur : g.m.cur = some (i, p) := by simp [Master.cur, hcy, hc]
-    have hA := h8.await a ho i p hcur
+    have hA := h8.await a ho i p hcur hpa
     have hJ8 := h8.slot i p hi
     obtain ⟨k, hl⟩ := hA.last
     obtain ⟨hst, _⟩ := hJ8.snap hA.notFirst k p.fcb hl rfl
@@ -283,6 +290,10 @@ theorem inv3_step {fp : FdlParams} (hfp : FpOk fp) {g g' : G} (hI : Inv fp g) (h
     cases hev : g.m.lastEvents.peripheral with
     | none => exact ⟨h3.slot, h3.await⟩
     | some he =>
+      cases hsv : g.staleEv with
+      | true => simp only [↓reduceIte]; exact ⟨h3.slot, h3.await⟩
+      | false =>
+      simp only [Bool.false_eq_true, ↓reduceIte]
       refine ⟨?_, ?_⟩
       · intro j q hq
         show J3 (g.upd he.index (sgTake he.ev) j) q
